@@ -50,7 +50,12 @@ def ref_match(a, b, wild_a, wild_b, fields=3):
 
 OPT_A = hdr.IPv4EndpointOption(ipaddress.IPv4Address("192.0.2.1"), hdr.L4Protocols.UDP, 30501)
 OPT_B = hdr.SOMEIPSDLoadBalancingOption(1, 2)
-OPTS = ((), (OPT_A,), (OPT_A, OPT_B))
+def run_of(k, base):
+    """k distinct endpoint options (15 is the largest count an entry can carry per run)"""
+    return tuple(hdr.IPv4EndpointOption(ipaddress.IPv4Address("192.0.2.1"), hdr.L4Protocols.UDP, base + i) for i in range(k))
+
+
+OPTS = ((), (OPT_A,), (OPT_A, OPT_B), run_of(14, 31000), run_of(15, 32000))
 
 
 def entry(kind, d, ttl=3, last=None):
@@ -182,6 +187,16 @@ def check(ctx):
                 r = eg.for_service(sb)
                 x = ref_match((a[0], a[1], a[2], W[2]), b, True, False)
                 n += 1
+                # the options a description carries (up to the largest count a run can hold) do not decide
+                for o1, o2 in ((OPTS[4], ()), ((), OPTS[4]), (OPTS[3], OPTS[4])):
+                    n += 1
+                    try:
+                        r2 = eg.for_service(dataclasses.replace(sb, options_1=o1, options_2=o2))
+                    except Exception as ex:  # noqa: BLE001
+                        bad("for_service", f"raises-{type(ex).__name__}", dict(a=a, b=b, n1=len(o1), n2=len(o2)), x, f"{type(ex).__name__}: {ex}")
+                        continue
+                    if r2 != r:
+                        bad("for_service", "depends-on-options", dict(a=a, b=b, n1=len(o1), n2=len(o2)), repr(r), repr(r2))
                 if (r is not None) != x:
                     bad("for_service", "accept", case, x, r is not None)
                 elif r is not None:
@@ -193,9 +208,14 @@ def check(ctx):
             for o2 in OPTS:
                 s = cfg.Service(*a, options_1=o1, options_2=o2, eventgroups=frozenset({5}))
                 for ttl in (0, 3, 0xFFFFFF):
-                    e = s.create_offer_entry(ttl)
-                    back = cfg.Service.from_offer_entry(e)
                     n += 1
+                    try:
+                        e = s.create_offer_entry(ttl)
+                        back = cfg.Service.from_offer_entry(e)
+                    except Exception as ex:  # noqa: BLE001
+                        bad("offer-roundtrip", f"raises-{type(ex).__name__}", dict(a=a, ttl=ttl, n1=len(o1), n2=len(o2)), a,
+                            f"{type(ex).__name__}: {ex}")
+                        continue
                     ok = (back.service_id, back.instance_id, back.major_version, back.minor_version,
                           back.options_1, back.options_2) == (a[0], a[1], a[2], a[3], o1, o2)
                     ok = ok and (e.sd_type, e.service_id, e.instance_id, e.major_version, e.ttl,
@@ -231,11 +251,36 @@ def replay(ctx, body):
     print("case:", case, "expected:", body.get("expected"), "observed:", body.get("observed"))
     a = tuple(case["a"])
     sa = cfg.Service(*a)
+    T = hdr.SOMEIPSDEntryType
+    if "n1" in case:
+        # conversions / for_service with option runs of the given lengths
+        o1 = next(o for o in OPTS[::-1] if len(o) == case["n1"])
+        o2 = next(o for o in OPTS if len(o) == case["n2"])
+        try:
+            if "b" in case:
+                eg = cfg.Eventgroup(a[0], a[1], a[2], 5, ("192.0.2.9", 3000), hdr.L4Protocols.UDP)
+                sb = cfg.Service(*tuple(case["b"]))
+                r, r2 = eg.for_service(sb), eg.for_service(dataclasses.replace(sb, options_1=o1, options_2=o2))
+                print("for_service without options:", r, "with options:", r2)
+                return 0 if r == r2 else 1
+            s = cfg.Service(*a, options_1=o1, options_2=o2, eventgroups=frozenset({5}))
+            back = cfg.Service.from_offer_entry(s.create_offer_entry(case.get("ttl", 3)))
+            ok = (back.options_1, back.options_2) == (o1, o2)
+            print("round trip keeps the option runs:", ok)
+            return 0 if ok else 1
+        except Exception as ex:  # noqa: BLE001
+            print("FAILS:", type(ex).__name__, ex)
+            return 1
     if "b" in case:
         b = tuple(case["b"])
         sb = cfg.Service(*b)
-        T = hdr.SOMEIPSDEntryType
-        print("matches_service", sa.matches_service(sb), "ref", ref_match(a, b, True, True))
-        print("matches_offer", sa.matches_offer(entry(T.OfferService, b)), "ref", ref_match(a, b, True, False))
-        print("matches_find", sa.matches_find(entry(T.FindService, b)), "ref", ref_match(a, b, False, True))
+        res = [("matches_service", sa.matches_service(sb), ref_match(a, b, True, True)),
+               ("matches_offer", sa.matches_offer(entry(T.OfferService, b)), ref_match(a, b, True, False)),
+               ("matches_find", sa.matches_find(entry(T.FindService, b)), ref_match(a, b, False, True))]
+        for name, got, ref in res:
+            print(name, got, "ref", ref)
+        if any(got != ref for _, got, ref in res):
+            return 1
+    # clauses that need more context than the case records (wire forms, eventgroup sets, laws): re-run the check
+    print("re-run ./check C19 for the full evaluation of this case's clause:", body.get("signature"))
     return 1
